@@ -94,6 +94,7 @@ def queries(tier, seed):
                                 if opn in ('assign_other_list', 'view_assign_other_list', 'view_assign_view', 'recreate_pt', 'view_copy') and a != 1: quick = False
                                 if opn == 'assign_image' and a == 1: quick = False
                                 quick = quick or (not std and (w, h) == (0, 0) and a == b and (opn, a) in (('copy_ctor', 0), ('recreate', 1), ('observe', 2)))
+                                quick = quick or (not std and al == 8 and (w, h) == (3, 2) and a == b and ((opn == 'recreate') or (opn == 'recreate_pt' and a == 1)))   # row stride under a requested alignment
                                 name = 'img%s/%s%s/%s-%s/%dx%d%s' % ('_std' if std else '', opn, tag, ALTN[a], ALTN[b], w, h, '_al%d' % al if al else '')
                                 qs.append(Q(name, 'C14/img.cpp', 'h_img', defs=dict(C14_ALT=a, C14_ALTB=b, C14_STDALLOC=std), params=[op, w, h, pw2, ph2, ex, ey, al],
                                             unwind=8, rt_unwind=24, tier=Q_ if quick else T_, timeout=300))
